@@ -51,6 +51,8 @@ def gen_requests(rng, n_per_codec, codecs=(RS28, RS2M, LDPC), big=False):
         for _ in range(n_per_codec):
             if codec == RS28:
                 k = rng.rng(1, 40 if not big else 200); r = rng.rng(1, min(30, 255 - k)); p1 = p2 = 0
+                if rng.chance(1, 60):      # the corners of the accepted domain
+                    k, r = rng.choice([(254, 1), (1, 254), (128, 127), (253, 2), (2, 253)])
                 L = rng.choice([1, 2, 3, 4, 7, 8, 15, 16, 17, 31, 33]) if rng.chance(1, 2) else rng.rng(1, 70)   # every residue of the 16/32-byte unrolled kernels
             elif codec == RS2M:
                 m = rng.choice([4, 8]); p1, p2 = m, rng.choice([0, 0, 4, 8])     # p2: field size set beforehand through of_set_control_parameter (the parameters decide)
@@ -58,16 +60,29 @@ def gen_requests(rng, n_per_codec, codecs=(RS28, RS2M, LDPC), big=False):
                     k = rng.rng(1, 14); r = rng.rng(1, 15 - k)
                 else:
                     k = rng.rng(1, 40 if not big else 200); r = rng.rng(1, min(30, 255 - k))
+                    if rng.chance(1, 60):
+                        k, r = rng.choice([(254, 1), (1, 254), (128, 127), (253, 2), (2, 253)])
+                if m == 4 and rng.chance(1, 20):
+                    k, r = rng.choice([(14, 1), (1, 14), (7, 8), (13, 2)])
                 L = rng.choice([1, 2, 3, 4, 7, 8, 15, 16, 17, 31, 33]) if rng.chance(1, 2) else rng.rng(1, 70)   # every residue of the 16/32-byte unrolled kernels
             elif codec == LDPC:
                 k = rng.rng(1, 30 if not big else 300); r = rng.rng(3, 20 if not big else 150)
-                p1 = rng.rng(3, min(r, 7)); p2 = rng.rng(1, 2 ** 31 - 2)
+                p1 = rng.rng(3, min(r, 7)) if not rng.chance(1, 6) else rng.rng(3, min(r, 14)); p2 = rng.rng(1, 2 ** 31 - 2)     # N1 above 7 one time in six
                 if rng.chance(1, 4):       # boundary seeds of the PRNG
                     p2 = rng.choice([1, 2, 16807, 2 ** 31 - 3, 2 ** 31 - 2, 1407677000])
                 L = rng.choice([1, 3, 4, 8, 9])
             else:
                 k, r = rng.choice(p2d_shapes()); p1 = p2 = 0
                 L = rng.choice([1, 4, 5, 8])
+            if codec != P2D and rng.chance(1, 150):
+                # symbol lengths at and above 2^16 (a UINT32 in the API; seed C06g kept one in a UINT16): tiny codes, the answer line carries every symbol in hex
+                L = 65536 + rng.below(10)
+                if codec == LDPC:
+                    k = rng.rng(1, 4); r = rng.rng(3, 5); p1 = 3
+                elif codec == RS2M and p1 == 4:
+                    k = rng.rng(1, 4); r = rng.rng(1, 4)
+                else:
+                    k = rng.rng(1, 4); r = rng.rng(1, 4)
             n = k + r
             # loss counts centred on the decodability threshold
             around = k + rng.choice([-3, -2, -1, -1, 0, 0, 0, 1, 1, 2, 3, r])
